@@ -335,8 +335,36 @@ theorem scmp_requests :
     Scion.Gen.Router1.req_verifyCurrentMAC =
       ["slowPathType(slayers.SCMPTypeParameterProblem)|slayers.SCMPCodeInvalidHopFieldMAC|p.currentHopPointer()"] ∧
     Scion.Gen.Router1.expr_currentHopPointer =
-      "uint16(slayers.CmnHdrLen + p.scionLayer.AddrHdrLen() + scion.MetaLen + path.InfoLen*p.path.NumINF + path.HopLen*int(p.path.PathMeta.CurrHF))" :=
-  ⟨rfl, rfl, rfl⟩
+      "uint16(slayers.CmnHdrLen + p.scionLayer.AddrHdrLen() + p.epicHdrLen() + scion.MetaLen + path.InfoLen*p.path.NumINF + path.HopLen*int(p.path.PathMeta.CurrHF))" ∧
+    Scion.Gen.Router1.expr_currentInfoPointer =
+      "uint16(slayers.CmnHdrLen + p.scionLayer.AddrHdrLen() + p.epicHdrLen() + scion.MetaLen + path.InfoLen*int(p.path.PathMeta.CurrINF))" :=
+  ⟨rfl, rfl, rfl, rfl⟩
+
+/-- `epicHdrLen()` as the model has it: `epic.MetadataLen` iff the path type is EPIC, else 0 -/
+theorem epic_hdr_len_fact :
+    Scion.Gen.Router1.conds_epicHdrLen = ["p.scionLayer.PathType == epic.PathType"] ∧
+    Scion.Gen.Router1.rets_epicHdrLen = ["epic.MetadataLen", "0"] ∧
+    Router.epicPathType = Scion.Gen.Router1.EpicPathType ∧
+    Router.scionPathType = Scion.Gen.Router1.ScionPathType ∧
+    Router.epicHdrLen Router.epicPathType = Scion.Gen.Router1.EpicMetadataLen :=
+  ⟨rfl, rfl, rfl, rfl, rfl⟩
+
+/-- for the SCION path type — the only one this model accepts — the EPIC term of the pointer
+expressions is 0 -/
+theorem epic_term_zero : Router.epicHdrLen Router.scionPathType = 0 := rfl
+
+/-- the model decodes a packet only if its path type byte is the SCION path type -/
+theorem parse_ok_scion_path (raw : Bytes) (h : Hd) (pm : Hdr) (e : parse raw = .ok h pm) :
+    ∃ pt, raw[8]? = some pt ∧ pt.toNat = Router.scionPathType := by
+  unfold parse at e
+  split at e
+  · rename_i x0 x1 x2 x3 nh hl pl0 pl1 pt ty x10 x11 rest
+    dsimp only at e
+    split at e
+    · cases e
+    · rename_i c0
+      exact ⟨pt, rfl, by simpa [Router.scionPathType] using c0⟩
+  · cases e
 
 /-- the constants of the model are the code's -/
 theorem gen_consts :
@@ -348,9 +376,12 @@ theorem gen_consts :
     Scion.Gen.Router1.MacLen = 6 ∧ Scion.Gen.Router1.MACBufferSize = 16 := by decide
 
 /-- the SCMP pointer of both answers is the byte offset of the offending hop field:
-`CmnHdrLen + AddrHdrLen + MetaLen + InfoLen·NumINF + HopLen·idx` -/
+`CmnHdrLen + AddrHdrLen + epicHdrLen + MetaLen + InfoLen·NumINF + HopLen·idx`, the EPIC term being
+0 for the SCION path type (`h.pathOff = CmnHdrLen + AddrHdrLen`) -/
 theorem pointer_formula (h : Hd) (idx : Nat) :
-    hopOff h idx = h.pathOff + Scion.Gen.Router1.MetaLen + Scion.Gen.Router1.InfoLen * h.numINF +
-      Scion.Gen.Router1.HopLen * idx := rfl
+    hopOff h idx = h.pathOff + Router.epicHdrLen Router.scionPathType + Scion.Gen.Router1.MetaLen +
+      Scion.Gen.Router1.InfoLen * h.numINF + Scion.Gen.Router1.HopLen * idx := by
+  unfold hopOff epicHdrLen scionPathType epicPathType
+  rfl
 
 end Scion.C01
